@@ -137,6 +137,8 @@ func dependsOn(c1, c2 schema.Change, _ SortOptions) bool {
 				switch c := c.(type) {
 				case *schema.AddForeignKey:
 					return refTo([]*schema.ForeignKey{c.F}, c2.T)
+				case *schema.ModifyForeignKey:
+					return refTo([]*schema.ForeignKey{c.To}, c2.T)
 				case *schema.AddColumn:
 					return c.C.Type != nil && typeDependsOnT(c.C.Type.Type, c2.T)
 				case *schema.ModifyColumn:
